@@ -57,10 +57,16 @@ class C04(Prop):
             texts.append("".join(c.upper() if rng.random() < 0.5 else c for c in t))
         bad = ["a", "abc", "0g", "g0", "zz", " ", "ab cd", "ab ", " ab", "0x12", "12\n", "אב", "éé",
                "１２", "1١", "just a regular string", "fef0\u0000", "-1", "+1", "1_", "0.", "ab\tcd", "ABCDEFG",
-               "fe f0", "\U0001f600\U0001f600", "12345", "0" * 81, "f" * 4097]
+               "fe f0", "\U0001f600\U0001f600", "12345", "0" * 81, "f" * 4097,
+               # even-length texts made of hex digits and white space only (a lenient hex parser would skip the blanks)
+               "  ", "fe f0 ", "fef0\r\n", " fef0 ", "\n\n", "f e ", "fe\tf0\n ", "ab  ", "\x0bab\x0c", "a b c d ", "fe f0 5d 00 ", "\u00a0ab\u00a0", "ab\x00\x00",
+               "0x", "0X12", "ab\x1c\x1d", "\ufeffab ", "ab\u2003\u2003"]
         for _ in range(ctx.pick(40, 400)):
             n = rng.randrange(1, 40)
             bad.append("".join(rng.choice("0123456789abcdefABCDEFgxz -:") for _ in range(n)))
+        for _ in range(ctx.pick(40, 400)):
+            n = rng.randrange(1, 20) * 2
+            bad.append("".join(rng.choice("0123456789abcdefABCDEF \t\n\r") for _ in range(n)))
         texts += bad
         # history: a shuffled second pass over a sample, valid and invalid inputs interleaved, every input repeated later -
         # what the signer did before must not matter
